@@ -694,3 +694,15 @@ func Run(p Program, o RunOpts) (res Result) {
 	return
 }
 
+
+// AddPeer attaches a new client (exported for property-specific flows).
+func (r *Runner) AddPeer(late bool) *Failure { return r.addPeer(late) }
+
+// SyncPeer syncs one peer.
+func (r *Runner) SyncPeer(p *Peer, pushOnly bool) *Failure { return r.sync(p, pushOnly) }
+
+// Ctx returns the runner's context.
+func (r *Runner) Ctx() context.Context { return r.ctx }
+
+// Logf appends a line to the readable history.
+func (r *Runner) Logf(format string, a ...any) { r.log(format, a...) }
